@@ -40,71 +40,81 @@ def c08(tier):
     if 'Invariant PrefixInv is violated' not in r2.stdout:
         raise ToolError('FMLSink vacuity guard: the write-once-ignore-count writer no longer violates PrefixInv')
     chk.add_tlc(r2)
-    progs = [{'name': n, 'text': t, 'ast': None} for n, t in SINK_PAYLOADS] + pool.corpus()[:tier_sizes(tier, 6, 40)] + \
-        pool.random_programs(tier_sizes(tier, 8, 300), base_seed=seed() * 6151 + 2, size=12)
+    progs = [{'name': n, 'text': t, 'ast': None} for n, t in SINK_PAYLOADS] + pool.corpus()[:tier_sizes(tier, 6, 30)] + \
+        pool.random_programs(tier_sizes(tier, 8, 120), base_seed=seed() * 6151 + 2, size=12)
     outs = compile_pool(exe, progs, wd, [], 'c08')
-    srecs, meta = [], {}
     rng = random.Random(seed())
-    for i, o in enumerate(outs):
-        if 'bytes' not in o:
-            continue
-        b = o['bytes']
-        # learn the request sequence with an unlimited sink
-        probe = run_harness(exe, 'sink', [{'id': 0, 'bytes': b}], wd, tag='c08p%d' % i, jobs=1)[0]
-        ncalls = len(probe.get('calls', []))
-        maxreq = max([c['len'] for c in probe.get('calls', [])] or [1])
-        big = len(b) > 2500 and tier != 'thorough'       # large images: a thin set of schedules in the quick tier (the CLI part below is what they are for)
-        if big:
-            scheds = [{'limit': k} for k in (64, 1000) if k <= maxreq]      # (a limit of 1 on a 13 KB image means 13 000 calls: thorough tier only)
-            js = sorted(rng.sample(range(ncalls), min(ncalls, 12)))
-        else:
-            scheds = [{'limit': k} for k in range(1, min(maxreq, 12) + 1)] + [{'limit': k} for k in sorted({maxreq - 1, maxreq // 2, 64, 1000}) if k > 12 and k < maxreq]
-            js = list(range(ncalls)) if (ncalls <= 150 or tier == 'thorough') else sorted(rng.sample(range(ncalls), 150))
-        scheds += [{'short_at': j, 'short_n': 1} for j in js]
-        scheds += [{'interrupt_at': j} for j in js[::max(1, len(js) // 10)]]
-        scheds += [{'zero_at': j} for j in js[::max(1, len(js) // 6)]] + [{'fail_at': j} for j in js[::max(1, len(js) // 6)]]
-        scheds += [{'limit': 2, 'interrupt_at': ncalls // 2}, {'limit': 3, 'short_at': ncalls // 3, 'short_n': 1}]
-        for sc in scheds:
-            j = len(srecs)
-            meta[j] = (i, sc)
-            srecs.append(dict({'id': j, 'bytes': b}, **sc))
-    log('[c08] %d schedules, %.0fs' % (len(srecs), time.time() - chk.t0))
-    souts = run_harness(exe, 'sink', srecs, wd, tag='c08s', jobs=16)
-    log('[c08] sink runs done %.0fs' % (time.time() - chk.t0))
-    trecs = []
-    laid = {}
-    for j, so in enumerate(souts):
-        i, sc = meta[j]
-        if so.get('crash') is not None or 'calls' not in so:
-            chk.violation('%s %s: serializing into the sink died' % (progs[i]['name'], sc), {'program': progs[i]['name'], 'schedule': sc, 'signature': {'kind': 'crash'}})
-            continue
-        if i not in laid:
-            laid[i] = len(laid) + 1
-            first = True
-        else:
-            first = False
-        trecs.append({'id': j, 'p': laid[i], 'calls': so['calls'], 'result': so['result'], 'checklayout': first})
-        chk.count((progs[i]['name'], json.dumps(sc, sort_keys=True)))
-    ppath = os.path.join(wd, 'sinkp.ndjson')
-    write_ndjson(ppath, [{'expected': outs[i]['bytes']} for i, _ in sorted(laid.items(), key=lambda kv: kv[1])])
-    for b in range(0, len(trecs), 3000):
-        part = trecs[b:b + 3000]
-        path = os.path.join(wd, 'sink.%d.ndjson' % b)
-        write_ndjson(path, part)
+    nconv = ncalls_total = 0
+    sample_conv = None
+    # programs are processed in groups so that the recorded conversations never have to be held all at once
+    group = 6 if tier != 'thorough' else 4
+    idxs = [i for i, o in enumerate(outs) if 'bytes' in o]
+    for g0 in range(0, len(idxs), group):
+        srecs, meta = [], {}
+        for i in idxs[g0:g0 + group]:
+            b = outs[i]['bytes']
+            # learn the request sequence with an unlimited sink
+            probe = run_harness(exe, 'sink', [{'id': 0, 'bytes': b}], wd, tag='c08p%d' % i, jobs=1)[0]
+            ncalls = len(probe.get('calls', []))
+            maxreq = max([c['len'] for c in probe.get('calls', [])] or [1])
+            big = len(b) > 2500       # large images: a thin set of schedules (the CLI part below is what they are for; a limit of 1 on a 13 KB image means 13 000 calls)
+            if big:
+                scheds = [{'limit': k} for k in ((64, 1000) if tier != 'thorough' else (7, 64, 1000)) if k <= maxreq]
+                js = sorted(rng.sample(range(ncalls), min(ncalls, 12 if tier != 'thorough' else 60)))
+            else:
+                scheds = [{'limit': k} for k in range(1, min(maxreq, 12) + 1)] + [{'limit': k} for k in sorted({maxreq - 1, maxreq // 2, 64, 1000}) if k > 12 and k < maxreq]
+                cap = 150 if tier != 'thorough' else 400
+                js = list(range(ncalls)) if ncalls <= cap else sorted(rng.sample(range(ncalls), cap))
+            scheds += [{'short_at': j, 'short_n': 1} for j in js]
+            scheds += [{'interrupt_at': j} for j in js[::max(1, len(js) // 10)]]
+            scheds += [{'zero_at': j} for j in js[::max(1, len(js) // 6)]] + [{'fail_at': j} for j in js[::max(1, len(js) // 6)]]
+            scheds += [{'limit': 2, 'interrupt_at': ncalls // 2}, {'limit': 3, 'short_at': ncalls // 3, 'short_n': 1}]
+            for sc in scheds:
+                j = len(srecs)
+                meta[j] = (i, sc)
+                srecs.append(dict({'id': j, 'bytes': b}, **sc))
+        souts = run_harness(exe, 'sink', srecs, wd, tag='c08s%d' % g0, jobs=16)
+        trecs = []
+        laid = {}
+        for j, so in enumerate(souts):
+            i, sc = meta[j]
+            if so.get('crash') is not None or 'calls' not in so:
+                chk.violation('%s %s: serializing into the sink died' % (progs[i]['name'], sc), {'program': progs[i]['name'], 'schedule': sc, 'signature': {'kind': 'crash'}})
+                continue
+            if i not in laid:
+                laid[i] = len(laid) + 1
+                first = True
+            else:
+                first = False
+            trecs.append({'id': j, 'p': laid[i], 'calls': so['calls'], 'result': so['result'], 'checklayout': first})
+            chk.count((progs[i]['name'], json.dumps(sc, sort_keys=True)))
+        ppath = os.path.join(wd, 'sinkp.%d.ndjson' % g0)
+        write_ndjson(ppath, [{'expected': outs[i]['bytes']} for i, _ in sorted(laid.items(), key=lambda kv: kv[1])])
+        path = os.path.join(wd, 'sink.%d.ndjson' % g0)
+        write_ndjson(path, trecs)
         rt = tlc_or_die('TraceSink', env={'SINK': path, 'SINKP': ppath}, workers=12, timeout=1800, tag='c08t')
         chk.add_tlc(rt)
         vs = {v['id']: v for v in rt.lines.get('VERDICT', [])}
-        if len(vs) != len(part):
-            raise ToolError('TraceSink: %d verdicts for %d conversations' % (len(vs), len(part)))
-        for rec in part:
+        if len(vs) != len(trecs):
+            raise ToolError('TraceSink: %d verdicts for %d conversations' % (len(vs), len(trecs)))
+        for rec in trecs:
             v = vs[rec['id']]
             chk.traces += 1
+            nconv += 1
+            ncalls_total += len(rec['calls'])
+            if sample_conv is None and len(rec['calls']) > 6 and 'short_at' in meta[rec['id']][1]:
+                sample_conv = {'program': progs[meta[rec['id']][0]]['name'], 'schedule': meta[rec['id']][1], 'calls': [[c['len'], c['acc']] for c in rec['calls'][:12]], 'result': rec['result']}
             if v['verdict'] != 'ok':
                 i, sc = meta[rec['id']]
                 chk.violation('%s under sink schedule %s: %s' % (progs[i]['name'], sc, v['verdict']),
                               {'program': progs[i]['name'], 'source': progs[i]['text'][:2000], 'schedule': sc, 'verdict': v['verdict'], 'bytes': outs[i]['bytes'][:4000],
                                'delivered_len': sum(max(c['acc'], 0) for c in rec['calls']), 'expected_len': len(outs[i]['bytes']),
                                'signature': {'kind': 'sink', 'verdict': v['verdict']}})
+        for f in (ppath, path):
+            try:
+                os.remove(f)
+            except OSError:
+                pass
     log('[c08] TraceSink done %.0fs' % (time.time() - chk.t0))
     # the real stdout: redirect and pipe versus -o
     obs = []
@@ -140,10 +150,9 @@ def c08(tier):
         chk.violation('%s: `fml compile` wrote %d bytes via %s but %d bytes via %s' % (inc['key'], a['val']['len'], a['cfg'], b['val']['len'], b['cfg']),
                       {'program': inc['key'], 'source': p['text'][:3000], 'first': a, 'second': b, 'signature': {'kind': 'cli-sink'}})
     chk.traces += len(obs)
-    chk.notes.update({'sink_conversations': len(trecs), 'write_calls_replayed': sum(len(t['calls']) for t in trecs), 'cli_observations': len(obs), 'programs': len(progs)})
-    if trecs:
-        k = len(trecs) // 2
-        chk.sample({'program': progs[meta[trecs[k]['id']][0]]['name'], 'schedule': meta[trecs[k]['id']][1], 'calls': [[c['len'], c['acc']] for c in trecs[k]['calls'][:12]], 'result': trecs[k]['result']})
+    chk.notes.update({'sink_conversations': nconv, 'write_calls_replayed': ncalls_total, 'cli_observations': len(obs), 'programs': len(progs)})
+    if sample_conv:
+        chk.sample(sample_conv)
     chk.sample(obs[1] if len(obs) > 1 else obs[:1])
     chk.assumptions = ['TLC, Json module', 'the chunking sink of the harness honours the Write contract']
     rm(wd)
@@ -572,7 +581,7 @@ def replay_path(exe, root, pi, path, text, decoy=None):
     open(os.path.join(wd, 'prog.fml'), 'w', encoding='utf-8').write(text)
     P, C, E = path['parse'], path['compile'], path['execute']
     args = ['parse'] + (['prog.fml'] if P['in'] == 'file' else []) + (['--format', P['fmt']] if P['explicit'] else [])
-    args += {'file': ['-o', 'a/tree.' + P['fmt']], 'fileneutral': ['-o', 'a/tree.out'], 'dir': ['-o', 'd'], 'stdout': []}[P['out']]
+    args += {'file': ['-o', 'a/tree.' + P['fmt']], 'fileneutral': ['-o', 'a/tree.out'], 'filewrong': ['-o', path['ast']['path']], 'dir': ['-o', 'd'], 'stdout': []}[P['out']]
     rc, so, se = run_stage(exe, wd, args, stdin_path=('prog.fml' if P['in'] == 'stdin' else None), capture_to=('a/captured.txt' if P['out'] == 'stdout' else None))
     obs = {'stages': [('parse', rc)], 'stderr': se}
     if rc != 0 or not os.path.exists(os.path.join(wd, path['ast']['path'])):
@@ -627,6 +636,9 @@ def c06(tier):
     payloads.append({'name': 'corpus:examples/brainfuck.fml', 'text': [p for p in pool.corpus() if 'brainfuck' in p['name']][0]['text'], 'ast': None, 'paths': 'formats'})
     payloads.append({'name': 'big:300-prints', 'text': '; '.join('print("line %d of a program whose image is larger than the reader buffers: ~\\n", %d)' % (i, i) for i in range(300)), 'ast': None, 'paths': 'formats'})
     payloads.append({'name': 'big:long-strings', 'text': '; '.join('print("%s\\n")' % (chr(97 + i % 26) * (3000 + 37 * i)) for i in range(8)), 'ast': None, 'paths': 'formats'})
+    payloads.append({'name': 'edge:only-function-definitions', 'text': 'function f(a) -> a + 1; function g() -> f(1)', 'ast': None, 'paths': 'some'})
+    payloads.append({'name': 'edge:empty-program', 'text': '', 'ast': None, 'paths': 'formats'})
+    payloads.append({'name': 'edge:comment-only', 'text': '/* nothing */ // at all\n', 'ast': None, 'paths': 'formats'})
     payloads.insert(0, {'name': 'all-paths:mixed', 'text': 'function f(a) -> a * 2; let o = object begin let x = 1; function m(k) -> this.x + k end; let a = array(3, f(2)); print("é~ ~ ~\\n", o.m(1), a, f(5)); a[5]', 'ast': None, 'paths': 'all'})
     payloads.insert(1, {'name': 'all-paths:hello', 'text': 'print("Hello: \\"world\\" #1\\n")', 'ast': None, 'paths': 'all' if tier == 'thorough' else 'some'})
     # representative paths per format (one straightforward path per format + the stdin/dir/stdout corners)
